@@ -190,3 +190,55 @@ def run(ctx):
     direct = reads_locals(cb, rv['a'][rv['fields'].index('compaction_checkpoints')])
     okd = (bool(pushes) and all(hd in reads_locals(cb, s_.args[1]) and not (reads_locals(cb, s_.args[1]) & set(others)) for s_ in pushes)) or (hd in direct and not (direct & set(others)))
     ctx.ob('C08.4', cb, 'decision-from-selected', okd, 'the checkpoint list of the logged decision %s' % ('is filled from the selected checkpoint hierarchy only' if okd else 'is NOT filled from the selected hierarchy (or reads another lookup)'), line=dec[0][2].get('ln'))
+
+    # ---------------------------------------------------------------- C08.5
+    ctx.rule('C08.5', 'a positional search keyed by to_seq runs on a list ordered by to_seq: every binary_search_by / binary_search_by_key / partition_point in ripd whose predicate reads a `to_seq` '
+             'field has, on the same list and dominating it, a sort whose comparator reads `to_seq` — or, when the list is a parameter, every caller sorted what it passes. Checkpoint frames are '
+             'appended in seq order, not in to_seq order (a manual checkpoint can be back-filled at an older boundary): cutting an index "at the first entry past the bound" drops or keeps the wrong ones.')
+    SEARCH = r'::(binary_search_by|binary_search_by_key|partition_point)$'
+    SORT = r'::(sort_by|sort_by_key|sort_unstable_by|sort_unstable_by_key|sort_by_cached_key)$'
+
+    def reads_to_seq(g, op):
+        o = g.origin(op)
+        cf = None
+        if o[0] == 'rv' and o[1].get('ak') == 'closure':
+            cf = P.fns.get(o[1].get('def'))
+        elif o[0] == 'const' and o[1].get('fn') in P.fns:
+            cf = P.fns[o[1]['fn']]
+        if cf is None:
+            return False
+        for bi_ in cf.reachable():
+            for st_ in cf.blocks[bi_]['s']:
+                rv_ = st_.get('rv') or {}
+                for pl_ in ([rv_.get('pl')] if rv_.get('pl') else []) + [op_place(a_) for a_ in rv_.get('a', [])]:
+                    if any(isinstance(pp, dict) and pp.get('n') == 'to_seq' for pp in (pl_ or {}).get('p', [])):
+                        return True
+        return False
+
+    THR = (r'::deref$', r'::deref_mut$', r'::as_slice$', r'::as_mut_slice$', r'::as_ref$', r'::as_mut$', r'::borrow$', r'::iter$')
+
+    def sorted_before(g, site, root):
+        for so in g.calls(SORT):
+            if so.args and g.root_local(so.args[0], through_calls=THR) == root and len(so.args) > 1 and reads_to_seq(g, so.args[1]) and g.dom(so.bb, site.bb):
+                return so
+        return None
+
+    n5 = 0
+    for g in [x for x in P.fns.values() if x.crate == 'ripd']:
+        for se in g.calls(SEARCH):
+            if len(se.args) < 2 or not any(reads_to_seq(g, a) for a in se.args[1:]):
+                continue
+            n5 += 1
+            root = g.root_local(se.args[0], through_calls=THR)
+            ok5, how5 = False, 'no sort by to_seq of that list precedes it'
+            if root is not None and sorted_before(g, se, root):
+                ok5, how5 = True, 'the same list is sorted by to_seq first'
+            elif root is not None and 1 <= root <= g.argc and '{closure' not in g.path:
+                cs = P.callers('^' + re.escape(g.path) + '$')
+                if cs and all(len(c.args) >= root and c.fn.root_local(c.args[root - 1], through_calls=THR) is not None and
+                              sorted_before(c.fn, c, c.fn.root_local(c.args[root - 1], through_calls=THR)) for c in cs):
+                    ok5, how5 = True, 'every caller (%d) sorts the list by to_seq before passing it' % len(cs)
+                else:
+                    how5 = 'the list is a parameter and a caller (%s) passes one it did not sort by to_seq' % (cs[0].fn.path.rsplit('::', 1)[-1] if cs else 'none found')
+            ctx.ob('C08.5', g, 'ordered-search-on-sorted-list:' + se.name, ok5, '%s over to_seq: %s' % (se.name, how5), line=se.line)
+    ctx.floor('C08.5', 'positional searches keyed by to_seq', n5, 2)
